@@ -22,17 +22,23 @@ mod signature;
 mod sub_attributes;
 mod token_util;
 mod trait_codegen;
+#[cfg(audunhalland_entrait_verif)]
+mod verif_hook;
 
 use input::Input;
 use opt::Opts;
 
 #[proc_macro_attribute]
 pub fn entrait(attr: TokenStream, input: TokenStream) -> TokenStream {
+    #[cfg(audunhalland_entrait_verif)]
+    let invoke = verif_hook::hooked("entrait", invoke);
     invoke(attr, input, |_| {})
 }
 
 #[proc_macro_attribute]
 pub fn entrait_export(attr: TokenStream, input: TokenStream) -> TokenStream {
+    #[cfg(audunhalland_entrait_verif)]
+    let invoke = verif_hook::hooked("entrait_export", invoke);
     invoke(attr, input, |opts| {
         set_fallbacks([&mut opts.export]);
     })
@@ -40,6 +46,8 @@ pub fn entrait_export(attr: TokenStream, input: TokenStream) -> TokenStream {
 
 #[proc_macro_attribute]
 pub fn entrait_unimock(attr: TokenStream, input: TokenStream) -> TokenStream {
+    #[cfg(audunhalland_entrait_verif)]
+    let invoke = verif_hook::hooked("entrait_unimock", invoke);
     invoke(attr, input, |opts| {
         set_fallbacks([&mut opts.unimock]);
     })
@@ -47,6 +55,8 @@ pub fn entrait_unimock(attr: TokenStream, input: TokenStream) -> TokenStream {
 
 #[proc_macro_attribute]
 pub fn entrait_export_unimock(attr: TokenStream, input: TokenStream) -> TokenStream {
+    #[cfg(audunhalland_entrait_verif)]
+    let invoke = verif_hook::hooked("entrait_export_unimock", invoke);
     invoke(attr, input, |opts| {
         set_fallbacks([&mut opts.export, &mut opts.unimock]);
     })
